@@ -26,6 +26,14 @@ Judge(ev) ==
             ELSE IF ev.obs.st # "ok" THEN "bad:raised"
             ELSE IF ev.obs.u # ev.v \/ ~ev.obs.sametype THEN "bad:unit-or-type"
             ELSE J(QEqv(Q(ev.obs.a), e))
+      [] ev.op = "treplace" ->
+            \* the table converter was replaced by another one (rows2) after the pair had been converted once: the
+            \* answer is the new table's
+            LET e == AffConv(Tab(ev.rows2), Q(ev.a), ev.u, ev.v) IN
+            IF e = NoQ THEN J(IsErr(ev.obs, "UnitConversionError"))
+            ELSE IF ev.obs.st # "ok" THEN "bad:raised"
+            ELSE IF ev.obs.u # ev.v \/ ~ev.obs.sametype THEN "bad:unit-or-type"
+            ELSE J(QEqv(Q(ev.obs.a), e))
       [] ev.op = "tcmp" ->
             \* x op y is decided on x.amount and y converted to x's unit
             LET e == Exp(ev, Q(ev.b), ev.v, ev.u) IN
